@@ -4,7 +4,7 @@ from __future__ import annotations
 
 import random
 
-from .common import ElemError, SrcError, strip
+from .common import ElemError, SrcError, SubmitError, strip
 
 
 def gen_scenarios(rnd: random.Random, count, max_n=6, max_cap=3):
@@ -21,18 +21,24 @@ def gen_scenarios(rnd: random.Random, count, max_n=6, max_cap=3):
         prefail = sorted(idx[nf:nf + npf])
         srcfail = rnd.choice([0, 0, 0] + list(range(1, n + 2)))
         brk = rnd.choice([None, None] + list(range(1, n + 1))) if n else None
-        out.append({'n': n, 'cap': cap, 'conc': 8, 'retexc': rnd.random() < 0.6, 'fail': fail,
+        # the submission function itself raises for one element (afifo only: the parmap operators submit by create_task)
+        subfail = 0
+        if variant == 'afifo' and not srcfail and n and rnd.random() < 0.3:
+            cand = [i for i in range(1, n + 1) if i not in prefail]
+            subfail = rnd.choice(cand) if cand else 0
+        out.append({'n': n, 'cap': cap, 'conc': 8, 'retexc': rnd.random() < 0.6, 'fail': fail, 'subfail': subfail,
                     'prefail': prefail, 'srcfail': srcfail, 'srcbase': False, 'maybreak': brk is not None,
                     'mode': 'async', 'variant': variant, 'retx': rnd.random() < 0.6, 'break_at': brk,
-                    'usepre': bool(prefail) or rnd.random() < 0.3,
+                    'usepre': bool(prefail) or rnd.random() < (0.6 if subfail else 0.3),
                     'dur': [rnd.choice([0, 1, 2, 3, 5, 8]) for _ in range(n + 1)],
                     'srcdur': [rnd.choice([0, 0, 1, 2]) for _ in range(n + 2)]})
     return out
 
 
 def header(sc):
-    return {k: sc[k] for k in ('n', 'cap', 'conc', 'retexc', 'fail', 'prefail', 'srcfail', 'srcbase', 'maybreak',
-                               'mode')}
+    h = {k: sc[k] for k in ('n', 'cap', 'conc', 'retexc', 'fail', 'prefail', 'srcfail', 'srcbase', 'maybreak', 'mode')}
+    h['subfail'] = sc.get('subfail', 0)
+    return h
 
 
 _patched = False
@@ -207,6 +213,8 @@ def _make_scenario(sc):
             closed('err', e.i)
         except SrcError:
             closed('src', 0)
+        except SubmitError:
+            closed('sub', 0)
 
     async def main():
         loop = asyncio.get_running_loop()
@@ -217,6 +225,9 @@ def _make_scenario(sc):
             gen = s.__aiter__()
         else:
             async def func(x):
+                if x == sc.get('subfail', 0):
+                    detsched.emit('SubFail', i=x)
+                    raise SubmitError(x)
                 detsched.emit('Submit', i=x)
                 t = loop.create_task(awork(x))
                 t._vi = x
